@@ -247,6 +247,27 @@ Theorem filename_plus_recompose : forall p b,
 Proof. exact ProofsFile.plus_path_base. Qed.
 Print Assumptions filename_plus_recompose.
 
+(* operator== / operator!= compare the normalised names (str(), c_str(), operator std::string and
+   operator<< hand out that same string) *)
+Theorem filename_eq_spec : forall a b, fn_eq a b = true <-> a = b.
+Proof. exact ProofsFile.fn_eq_spec. Qed.
+Print Assumptions filename_eq_spec.
+
+(* operator-: cuts behind the first character of the name that occurs among base's characters
+   (find_first_of); unchanged when no character is shared *)
+Theorem filename_minus_spec : forall a b,
+  ((forall c, In c a -> ~ In c b) -> fn_minus a b = a) /\
+  (forall p c r, a = p ++ c :: r -> In c b -> (forall x, In x p -> ~ In x b) -> fn_minus a b = fn_norm r).
+Proof. exact ProofsFile.fn_minus_spec. Qed.
+Print Assumptions filename_minus_spec.
+
+(* ... hence it is not the inverse of operator+ ("dir/file" - "dir" = "ir/file"): reported as a
+   possible finding; operator- is not named in the property's recomposition clause *)
+Theorem filename_minus_not_inverse_of_plus :
+  exists a b, normal a /\ normal b /\ a <> [] /\ b <> [] /\ ~ In SEP b /\ fn_minus (fn_plus a b) a <> b.
+Proof. exact ProofsFile.fn_minus_not_inverse_of_plus. Qed.
+Print Assumptions filename_minus_not_inverse_of_plus.
+
 (* ext()/dropExt() of /repo before the repair: "dir.d/file" had extension "d/file" *)
 Theorem filename_ext_old_refuted :
   exists f, normal f /\ ~ In DOT (fn_base f) /\ fn_ext_old f <> [] /\ fn_ext_old f <> fn_ext f /\
